@@ -275,6 +275,14 @@ class Ctx:
         `checker` : Coq term of type  <case type> -> bool.  Returns the list of indices whose
         check evaluates to false (empty = model and implementation agree)."""
         os.makedirs(CASES, exist_ok=True)
+        if not getattr(self, '_models_built', False):
+            # the executable models must be rebuilt against the freshly regenerated gen/*.v
+            targets = [rel[:-2] + '.vo' for rel in coq_sources() if rel.startswith('model/')]
+            with CoqLock():
+                ok, out = coq_make(targets)
+            if not ok:
+                self.obligation('build:models', False, out[-1500:])
+            self._models_built = True
         files = []
         for k in range(0, len(items), chunk):
             fn = os.path.join(CASES, '%s_%s_%d_%d.v' % (self.pid, name, os.getpid(), k // chunk))
